@@ -62,9 +62,10 @@ impl WriteGuard {
     { unimplemented!() }
     // HashMap::entry(k).or_insert(v): inserts only if the key is vacant; an occupied entry (even of a terminated instance) is left as it is
     #[verifier::external_body]
-    pub fn entry_or_insert(&mut self, key: TypeIdV, v: AnyBoxObj, Tracked(w): Tracked<&mut World>)
+    pub fn entry_or_insert(&mut self, key: TypeIdV, v: AnyBoxObj, Tracked(w): Tracked<&mut World>) -> (r: AnyBoxObj)
         requires old(w).locked,                                                                                               // @ob lock.registry-written-under-lock C08
-        ensures *final(w) == (World { registry: if old(w).registry.dom().contains(key.id()) { old(w).registry } else { old(w).registry.insert(key.id(), v.val()) }, ..*old(w) })
+        ensures *final(w) == (World { registry: if old(w).registry.dom().contains(key.id()) { old(w).registry } else { old(w).registry.insert(key.id(), v.val()) }, ..*old(w) }),
+                r.val() == final(w).registry[key.id()]      // (the real method hands out `&mut` to the entry: what is in the slot after the call)
     { unimplemented!() }
     #[verifier::external_body]
     pub fn remove(&mut self, key: &TypeIdV, Tracked(w): Tracked<&mut World>) -> (r: Option<AnyBoxObj>)
